@@ -50,6 +50,23 @@ def run(chk):
         n += seen
         r1.expect(bad is None and seen > 0, "Client.%s: %d store variants, length and block are the same converted value" % (m.name, seen), "Client.%s:length-data-coupling" % m.name, "Client.%s: %s" % (m.name, bad or "no store variant derived"), fn=m, node=m.node)
     r1.floor("store command variants", n, 14)
+    # flags the caller gives explicitly go on the wire as given - the value 0 included (it is not "no flags given")
+    n_f = 0
+    for m in wire.wire_methods(prog):
+        if m.param("flags") is None or spec.METHOD_VERB.get(m.name, m.name) not in spec.STORE_VERBS + ("cas",):
+            continue
+        dom0 = wire.evaluate(prog, m, bind={"flags": Const(0)})
+        badf = None
+        for ev in dom0.events:
+            for cmd in wire.commands_of(ev["wire"]):
+                ints = [f for f in cmd if f[0] == "int" and f[2] == "check_integer"]
+                if not ints:
+                    continue
+                n_f += 1
+                if ints[0][1] != Const(0):
+                    badf = badf or "with flags=0 given explicitly the command carries the flags `%s` (%r)" % (wire.describe(ints[0][1]), wire.render(cmd))
+        r1.expect(badf is None, "Client.%s(flags=0): the command carries the flags 0" % m.name, "Client.%s:explicit-flags" % m.name, "Client.%s: %s: an explicit 0 is treated as 'not given' and replaced by the serializer's flags, so the item is later decoded as another type" % (m.name, badf), fn=m, node=m.node)
+    r1.floor("store commands with explicit flags", n_f, 6)
 
     # ------------------------------------------------------------------ R2 one pass over caller iterables
     r2 = chk.rule("C04.R2", "caller-supplied key collections are traversed at most once unless materialised first")
@@ -104,6 +121,7 @@ def run(chk):
     report.include_rules(chk, r5, rules_C18, ("C18.R2",), "a value fetched through FallbackClient is the first answering cache's value")
     from . import rules_C12
 
+    report.include_rules(chk, r5, rules_C12, ("C12.R2",), "through HashClient a plain key - whatever its length and type - is routed and sent as it is; only a 2-tuple is a (server_key, key) pair")
     report.include_rules(chk, r5, rules_C12, ("C12.R3", "C12.R4"), "through HashClient every requested key is asked of its server and every answer is in the merged result")
     # the prefix never leaks into results: fetch results are keyed through the remap (R3); stats/cache_memlimit use b""
     chk.assume("a faithful memcached returns exactly the bytes it was given; serializer round trips are C15")
